@@ -1,5 +1,112 @@
 -------------------------------- MODULE RV64 --------------------------------
+(***************************************************************************)
+(* M4, RISC-V: the pseudo-assembly printed by axcut2rv64, read as C08      *)
+(* states: 64-bit loads and stores (LW/SW move whole words), started at    *)
+(* the first label with the heap and free registers initialised as on the  *)
+(* other backends, main's parameters in the second temporaries of their    *)
+(* positions, finished on reaching the `cleanup` label with the result in  *)
+(* the first return register.  No stack, no calls (the backend is          *)
+(* print-free).  Jump-table entries are JAL instructions (4 bytes).        *)
+(***************************************************************************)
 EXTENDS Values
-RVInit(P, args, nblocks, cfg) == [status |-> "fail"]
-RVStep(P, s) == s
+
+RVRegs == {"X0", "X1", "X2", "X3", "X4", "X5", "X6", "X7", "X8", "X9", "X10", "X11", "X12", "X13", "X14", "X15",
+           "X16", "X17", "X18", "X19", "X20", "X21", "X22", "X23", "X24", "X25", "X26", "X27", "X28", "X29", "X30", "X31"}
+
+RFail(s, tag, why) == [s EXCEPT !.status = "fail", !.tag = tag, !.why = why]
+
+RVInit(P, args, nblocks, cfg) ==
+  LET paramReg(i) == cfg.temps[i].snd.r
+      regs0 == [r \in RVRegs |->
+                  IF r = "X0" THEN ZeroV
+                  ELSE IF r = cfg.heap.r THEN PtrV(0, 0)
+                  ELSE IF r = cfg.free.r THEN PtrV(1, 0)
+                  ELSE IF \E i \in 1..Len(args) : paramReg(i) = r
+                       THEN IntV(args[CHOOSE i \in 1..Len(args) : paramReg(i) = r])
+                       ELSE UndefV]
+  IN [pc |-> P.entry, regs |-> regs0, ret1 |-> cfg.return1.r,
+      stk |-> <<>>, heap |-> <<>>, flags |-> NoFlagsV, nblocks |-> nblocks,
+      out |-> <<>>, status |-> "run", tag |-> "", why |-> "", result |-> UndefV, steps |-> 0, hi |-> 0]
+
+RVGet(s, r) == IF r = "X0" THEN ZeroV ELSE s.regs[r]
+RVSet(s, r, v) == IF r = "X0" THEN s ELSE [s EXCEPT !.regs[r] = v]
+RVal(s, a) == IF a.k = "imm" THEN IntV(a.w) ELSE RVGet(s, a.r)
+
+RVAddr(s, base, off) ==
+  LET b == RVGet(s, base)
+  IN IF b.t = "ptr" THEN
+        LET o == b.o + off
+        IN IF o < 0 \/ o >= BlockBytes \/ (o % 8) # 0 \/ b.b < 0 THEN <<"bad", "mem", "heap access outside the addressed block">>
+           ELSE IF b.b >= s.nblocks THEN <<"exhausted">>
+           ELSE <<"heap", HeapKey(b.b, o \div 8)>>
+     ELSE IF IsJunk(b) THEN <<"bad", "undef", "memory access through an undefined register">>
+     ELSE <<"bad", "mem", "memory base is not a heap pointer (" \o b.t \o ")">>
+RVAddrFail(s, ad) == IF ad[1] = "exhausted" THEN [s EXCEPT !.status = "model-heap-exhausted"] ELSE RFail(s, ad[2], ad[3])
+
+RVJumpBytes == 4
+RVResolve(P, v) ==
+  IF v.t # "code" \/ v.l \notin DOMAIN P.labels THEN 0
+  ELSE LET i == P.labels[v.l] k == v.o \div RVJumpBytes
+       IN IF (v.o % RVJumpBytes) # 0 \/ v.o < 0 THEN 0
+          ELSE IF k = 0 THEN i
+          ELSE IF i + k + 1 <= Len(P.code) /\ \A j \in (i + 1)..(i + k + 1) : P.code[j].op = "JAL"
+               THEN i + k + 1 ELSE 0
+
+RNext1(s) == [s EXCEPT !.pc = s.pc + 1, !.steps = s.steps + 1]
+RGoto(P, s, l) ==
+  IF l \notin DOMAIN P.labels THEN RFail(s, "asm", "undefined label " \o l)
+  ELSE [s EXCEPT !.pc = P.labels[l], !.steps = s.steps + 1]
+
+RVStep(P, s) ==
+  LET i == P.code[s.pc]
+      op == i.op
+  IN
+  IF op = "label" /\ i.l = "cleanup" THEN
+     LET r == RVGet(s, s.ret1)
+     IN IF IsJunk(r) THEN RFail(s, "undef", "undefined value returned")
+        ELSE IF r.t # "int" THEN RFail(s, "value", "result is not an integer")
+        ELSE [s EXCEPT !.status = "done", !.result = r]
+  ELSE IF op \in {"label", "mark"} THEN RNext1(s)
+  ELSE IF op \in {"ADD", "SUB", "MUL", "DIV", "REM"} THEN
+     LET x == RVGet(s, i.a[2].r) y == RVal(s, i.a[3])
+     IN IF IsJunk(x) \/ IsJunk(y) THEN RFail(s, "undef", op \o " on an undefined value")
+        ELSE IF op \in {"DIV", "REM"} THEN
+             (IF x.t # "int" \/ y.t # "int" THEN RFail(s, "value", op \o " on non-integer")
+              ELSE IF ~DivDefined(x.w, y.w) THEN [s EXCEPT !.status = "source-undefined"]
+              ELSE RNext1(RVSet(s, i.a[1].r, IntV(IF op = "DIV" THEN SDiv(x.w, y.w) ELSE SRem(x.w, y.w)))))
+        ELSE LET r == IF op = "ADD" THEN AddV(x, y) ELSE IF op = "SUB" THEN SubV(x, y) ELSE MulV(x, y)
+             IN IF IsBad(r) THEN RFail(s, IF r.why = "arithmetic on undefined value" THEN "undef" ELSE "value", r.why)
+                ELSE RNext1(RVSet(s, i.a[1].r, r))
+  ELSE IF op = "LI" THEN RNext1(RVSet(s, i.a[1].r, IntV(i.a[2].w)))
+  ELSE IF op = "LA" THEN RNext1(RVSet(s, i.a[1].r, CodeV(i.a[2].l, 0)))
+  ELSE IF op = "MV" THEN RNext1(RVSet(s, i.a[1].r, RVGet(s, i.a[2].r)))
+  ELSE IF op = "LW" THEN
+     LET ad == RVAddr(s, i.a[3].r, i.a[2].s)
+     IN IF i.a[2].big THEN RFail(s, "encode", "load offset out of range")
+        ELSE IF ad[1] \in {"bad", "exhausted"} THEN RVAddrFail(s, ad)
+        ELSE RNext1(RVSet(s, i.a[1].r, Sparse(s.heap, ad[2], ZeroV)))
+  ELSE IF op = "SW" THEN
+     LET ad == RVAddr(s, i.a[3].r, i.a[2].s)
+     IN IF i.a[2].big THEN RFail(s, "encode", "store offset out of range")
+        ELSE IF ad[1] \in {"bad", "exhausted"} THEN RVAddrFail(s, ad)
+        ELSE RNext1([s EXCEPT !.heap = (ad[2] :> RVGet(s, i.a[1].r)) @@ s.heap,
+                              !.hi = IF (ad[2] \div SlotsPerBlock) > s.hi THEN ad[2] \div SlotsPerBlock ELSE s.hi])
+  ELSE IF op \in {"BEQ", "BNE", "BLT", "BLE", "BGT", "BGE"} THEN
+     LET cc == CASE op = "BEQ" -> "eq" [] op = "BNE" -> "ne" [] op = "BLT" -> "lt" [] op = "BLE" -> "le" [] op = "BGT" -> "gt" [] OTHER -> "ge"
+         x == RVGet(s, i.a[1].r) y == RVGet(s, i.a[2].r)
+         c == Cond(cc, <<x, y>>)
+     IN IF c = "bad" THEN
+             (IF IsJunk(x) \/ IsJunk(y) THEN RFail(s, "undef", "conditional branch on an undefined register")
+              ELSE RFail(s, "value", "conditional branch on incomparable operands (" \o x.t \o ", " \o y.t \o ")"))
+        ELSE IF c = "T" THEN RGoto(P, s, i.a[3].l) ELSE RNext1(s)
+  ELSE IF op = "JAL" THEN
+     IF i.a[1].r # "X0" THEN RFail(s, "tool", "JAL with a link register is not modelled")
+     ELSE RGoto(P, s, i.a[2].l)
+  ELSE IF op = "JALR" THEN
+     LET tgt == AddV(RVGet(s, i.a[2].r), IntV(i.a[3].w)) j == RVResolve(P, tgt)
+     IN IF i.a[1].r # "X0" THEN RFail(s, "tool", "JALR with a link register is not modelled")
+        ELSE IF IsJunk(RVGet(s, i.a[2].r)) THEN RFail(s, "undef", "jump through an undefined register")
+        ELSE IF j = 0 THEN RFail(s, "jump", "jump target is not a label or a whole number of table entries past one")
+        ELSE [s EXCEPT !.pc = j, !.steps = s.steps + 1]
+  ELSE RFail(s, "tool", "unknown instruction " \o op)
 =============================================================================
